@@ -279,6 +279,8 @@ def cases(draw, plugin=False):
                           "files": draw(st.sampled_from([1, 1, 2, "two-folders"])),
                           "how": draw(st.sampled_from(["import_plugins", "user-code-after-first-cid"])),
                           "module": draw(st.sampled_from(["myplugins", "c20_recording_plugins"]))}
+        # how the plugin classes are built: on their own, with a subclass next to them, or from a mixin
+        case["plugin"]["style"] = draw(st.sampled_from(recplugins.PLUGIN_STYLES))
         if case["plugin"]["files"] == "two-folders":
             # fields and checks in files of the SAME name in two plugin folders imported one after the other
             case["plugin"]["how"] = "import_plugins"
@@ -789,17 +791,17 @@ def check_plugin_case(sub, case):
         os.mkdir(plugin_folder)
         more_folders = []
         if plugin["files"] == "two-folders":
-            sources = {plugin["module"]: recplugins.plugin_source(plugin["field_stems"], [])}
+            sources = {plugin["module"]: recplugins.plugin_source(plugin["field_stems"], [], plugin.get("style", "plain"))}
             second = os.path.join(folder, "more_plugins")
             os.mkdir(second)
             more_folders.append(second)
             with open(os.path.join(second, plugin["module"] + ".py"), "w", encoding="utf-8") as f:
-                f.write(recplugins.plugin_source([], plugin["check_stems"]))
+                f.write(recplugins.plugin_source([], plugin["check_stems"], plugin.get("style", "plain")))
         elif plugin["files"] == 1:
-            sources = {plugin["module"]: recplugins.plugin_source(plugin["field_stems"], plugin["check_stems"])}
+            sources = {plugin["module"]: recplugins.plugin_source(plugin["field_stems"], plugin["check_stems"], plugin.get("style", "plain"))}
         else:
-            sources = {plugin["module"]: recplugins.plugin_source(plugin["field_stems"], []),
-                       plugin["module"] + "_checks": recplugins.plugin_source([], plugin["check_stems"])}
+            sources = {plugin["module"]: recplugins.plugin_source(plugin["field_stems"], [], plugin.get("style", "plain")),
+                       plugin["module"] + "_checks": recplugins.plugin_source([], plugin["check_stems"], plugin.get("style", "plain"))}
         for module_name, source in sources.items():
             with open(os.path.join(plugin_folder, module_name + ".py"), "w", encoding="utf-8") as f:
                 f.write(source)
@@ -856,6 +858,7 @@ def check_plugin_case(sub, case):
         sub.cls("plugin:module:%s" % ("own-name" if plugin["module"] in ("myplugins", "c20_recording_plugins")
                                       else "name-of-a-loaded-module"))
         sub.cls("plugin:how:%s" % plugin.get("how", "import_plugins"))
+        sub.cls("plugin:style:%s" % plugin.get("style", "plain"))
         judge(sub, case, split_log(log, len(case["runs"])), outcomes)
     finally:
         shutil.rmtree(folder, ignore_errors=True)
